@@ -482,6 +482,12 @@ func (k *r2sibCollector) call(st *r2sibState, x *ast.CallExpr, clause r2sibClaus
 	f := k.f
 	callee := CalleeOf(f.info, x)
 	if callee == nil {
+		// the builtin panic: the path ends here (recorded only when a rule asks for it)
+		if id, ok := ast.Unparen(x.Fun).(*ast.Ident); ok && id.Name == "panic" {
+			if _, isBuiltin := f.info.Uses[id].(*types.Builtin); isBuiltin && k.opts.Only != nil && k.opts.Only["panic"] {
+				k.record("panic", "panic", nil, x.Pos(), "", x, clause)
+			}
+		}
 		return
 	}
 	ro := &k.e.roles
